@@ -4,7 +4,7 @@
      * image_data_stream: `as usize` of W / H / BPC, `num_colors * bpc`, `width * ..`, `+ 7`, `height * stride`
        (unchecked in the pinned tree, checked_* since 173c5e9), `take(length)` and `content.to_vec()`;
      * the recursion of _direct_objects_at / array / dictionary_at / nested_literal_string, whose depth the file
-       chooses (bounded by MAX_BRACKET since 61b571d; the bound on literal strings was already there).
+       chooses (bounded since 61b571d, by MAX_NESTING since ce95661; the bound MAX_BRACKET on literal strings was already there).
    Definitions only. *)
 From LV Require Import Base.Bytes Model.Obj Model.Parser Gen.Lex Model.Safe.
 Local Open Scope N_scope.
@@ -41,6 +41,6 @@ Definition sinline_len_pinned (nc : N) (w h bpc : Z) : M N :=
   b7 <- Safe.usize_add wb 7 ;;
   Safe.usize_mul (Safe.as_usize h) (b7 / 8).
 
-(* recursion depth of the object parser: one level per container below the top value, at most [depth] of them,
+(* recursion depth of the object parser: one level per container below the top value, at most MAX_NESTING of them,
    and under every value a literal string nests at most MAX_BRACKET parentheses *)
-Definition PARSER_DEPTH_BOUND : N := 2 * MAX_BRACKET + 2.
+Definition PARSER_DEPTH_BOUND : N := MAX_NESTING + MAX_BRACKET + 2.
